@@ -79,36 +79,44 @@ Proof. intros a b H. rewrite <- (decode_code a), <- (decode_code b), H. reflexiv
 (* ---- strings ------------------------------------------------------------------------ *)
 Local Open Scope string_scope.
 
-Lemma prefix_refl : forall p, prefix p p = true.
-Proof. induction p as [|c p IH]; simpl; auto. destruct (ascii_dec c c); [exact IH | congruence]. Qed.
+Lemma prefix_nil : forall s, prefix "" s = true.
+Proof. destruct s; reflexivity. Qed.
 
 Lemma prefix_app : forall p s, prefix p (p ++ s) = true.
-Proof. induction p as [|c p IH]; intros s; simpl; auto. destruct (ascii_dec c c); [apply IH | congruence]. Qed.
+Proof.
+  induction p as [|c p IH]; intros s; [apply prefix_nil|].
+  cbn [append prefix]. destruct (ascii_dec c c); [apply IH | congruence].
+Qed.
+
+Lemma prefix_refl : forall p, prefix p p = true.
+Proof.
+  induction p as [|c p IH]; [reflexivity|]. cbn [prefix]. destruct (ascii_dec c c); [exact IH | congruence].
+Qed.
+
+Lemma prefix_app_r : forall p s r, prefix p s = true -> prefix p (s ++ r) = true.
+Proof.
+  induction p as [|a p IH]; intros s r H; [apply prefix_nil|].
+  destruct s as [|c s]; [discriminate|]. cbn [append prefix] in *.
+  destruct (ascii_dec a c); [apply IH; exact H | discriminate].
+Qed.
+
+Lemma has_sub_nil : forall s, has_sub "" s = true.
+Proof. destruct s; reflexivity. Qed.
 
 Lemma has_sub_app : forall s p, has_sub p (s ++ p) = true.
 Proof.
-  induction s as [|c s IH]; intros p; simpl.
-  - destruct p; simpl; auto. destruct (ascii_dec a a); [|congruence]. rewrite prefix_refl. reflexivity.
-  - destruct (prefix p (String c (s ++ p))); auto.
-Qed.
-
-Lemma has_sub_app_l : forall p s r, has_sub p s = true -> has_sub p (r ++ s) = true.
-Proof.
-  intros p s r H. induction r as [|c r IH]; simpl; auto.
-  destruct (prefix p (String c (r ++ s))); auto.
+  induction s as [|c s IH]; intros p.
+  - cbn [append]. destruct p as [|a p]; [reflexivity|]. cbn [has_sub]. rewrite prefix_refl. reflexivity.
+  - cbn [append has_sub]. destruct (prefix p (String c (s ++ p))); auto.
 Qed.
 
 Lemma has_sub_app_r : forall p s r, has_sub p s = true -> has_sub p (s ++ r) = true.
 Proof.
   intros p s. induction s as [|c s IH]; intros r H.
-  - simpl in H. destruct p; [|discriminate]. destruct r; reflexivity.
+  - cbn [has_sub] in H. destruct p; [apply has_sub_nil | discriminate].
   - cbn [has_sub] in H. cbn [append has_sub].
     destruct (prefix p (String c s)) eqn:E.
-    + assert (prefix p (String c (s ++ r)) = true) as ->; auto.
-      clear -E. revert c s E. induction p as [|a p IHp]; intros c s E; simpl in *; auto.
-      destruct (ascii_dec a c); [|discriminate]. destruct s as [|c' s'].
-      * destruct p; [|discriminate]. destruct r; reflexivity.
-      * simpl. apply IHp. exact E.
+    + change (String c (s ++ r)) with (String c s ++ r). rewrite (prefix_app_r _ _ _ E). reflexivity.
     + destruct (prefix p (String c (s ++ r))); auto.
 Qed.
 
@@ -259,9 +267,9 @@ End TPProofs.
 
 Lemma replay_log : forall (Op : Type) (log s : list (did * Op)), replay _ Op log_absorb log s = s ++ log.
 Proof.
-  intros Op log. induction log as [|a log IH]; intros s; simpl.
+  intros Op log. unfold replay. induction log as [|a log IH]; intros s; cbn [fold_left].
   - rewrite app_nil_r. reflexivity.
-  - unfold replay in IH. rewrite IH. unfold log_absorb. rewrite <- app_assoc. destruct a. reflexivity.
+  - rewrite IH. unfold log_absorb. rewrite <- app_assoc. destruct a. reflexivity.
 Qed.
 
 (* with both defects repaired every factor is applied exactly once, to the ket image of its
@@ -336,7 +344,7 @@ Proof. intros. unfold doubled. cbn [map root_node dn_id]. rewrite sub_nodes_ids.
 Lemma in_both : forall d l, In d (flat_map both l) <-> exists n s, d = DN n s /\ In n l.
 Proof.
   intros d l. rewrite in_flat_map. split.
-  - intros [n [Hn [H|[H|[]]]]]; subst; eauto.
+  - intros [n [Hn [H|[H|[]]]]]; subst; [exists n, Ket | exists n, Bra]; split; auto.
   - intros [n [[|] [-> Hn]]]; exists n; split; auto; simpl; auto.
 Qed.
 
@@ -413,7 +421,8 @@ Proof.
   rewrite Forall_forall in IH.
   destruct (Nat.eq_dec n i) as [->|Hne].
   - (* the node itself: first (ket) or second (bra) record *)
-    unfold image_node. rewrite (parent_of_root (RNode i cs) Hw), children_ids_root, !map_map.
+    pose proof (parent_of_root (RNode i cs) Hw) as Hp. cbn [rid] in Hp.
+    unfold image_node. rewrite Hp, children_ids_root, !map_map.
     cbn [sub_nodes]. destruct s.
     + cbn [find_node sym_node dn_id did_eqb side_eqb]. rewrite Nat.eqb_refl. reflexivity.
     + cbn [find_node sym_node dn_id did_eqb side_eqb]. rewrite Nat.eqb_refl. cbn [andb]. reflexivity.
@@ -481,19 +490,71 @@ Proof.
   - intros [->|[c [Hc Hx]]]; auto. left. exists c. split; auto. apply IH; auto.
 Qed.
 
+(* when neither the root's name nor any bra name contains the ket suffix (in particular when
+   no node name does, for the default suffixes), the filter on the names selects exactly the
+   ket identifiers *)
+Theorem contraction_order_s_ok : forall root_name ksuf bsuf names t,
+  is_ket_s ksuf root_name = false ->
+  (forall n, In n (ids t) -> is_ket_s ksuf (bra_id_s bsuf (names n)) = false) ->
+  contraction_order_s root_name ksuf bsuf names t = map ket_id (postorder t).
+Proof.
+  intros rn ksuf bsuf names t Hr Hb. unfold contraction_order_s, linearise_doubled.
+  rewrite !filter_app.
+  assert (E1 : forall l, filter (fun d => is_ket_s ksuf (name_of rn ksuf bsuf names d)) (map ket_id l) = map ket_id l).
+  { induction l as [|n l IH]; simpl; auto. rewrite is_ket_s_ket, IH. reflexivity. }
+  assert (E2 : forall l, (forall n, In n l -> In n (ids t)) ->
+               filter (fun d => is_ket_s ksuf (name_of rn ksuf bsuf names d)) (map bra_id l) = []).
+  { induction l as [|n l IH]; intros Hl; simpl; auto. rewrite (Hb n) by (apply Hl; simpl; auto).
+    apply IH. intros m Hm. apply Hl. simpl. auto. }
+  rewrite E1, E2 by (intros n Hn; apply postorder_perm_ids; exact Hn).
+  simpl. rewrite Hr. rewrite app_nil_r. reflexivity.
+Qed.
+
 (* ---- the calls ------------------------------------------------------------------------------ *)
 (* position of a child in its parent's children list *)
 Fixpoint pos (x : nat) (l : list nat) : nat :=
   match l with [] => 0 | y :: r => if Nat.eqb x y then 0 else S (pos x r) end.
 
+Lemma flat_mapi_map : forall {A B C} (f : nat -> A -> list B) (g : B -> C) j l,
+  map g (flat_mapi f j l) = flat_mapi (fun j a => map g (f j a)) j l.
+Proof.
+  intros A B C f g j l. revert j. induction l as [|a l IH]; intros j; cbn [flat_mapi map]; auto.
+  rewrite map_app, IH. reflexivity.
+Qed.
+
+Lemma flat_mapi_noindex : forall {A B} (f : A -> list B) j l, flat_mapi (fun _ a => f a) j l = flat_map f l.
+Proof. intros A B f j l. revert j. induction l as [|a l IH]; intros j; cbn [flat_mapi flat_map]; auto. rewrite IH. reflexivity. Qed.
+
+Lemma flat_mapi_ext_in : forall {A B} (f g : nat -> A -> list B) j l,
+  (forall j a, In a l -> f j a = g j a) -> flat_mapi f j l = flat_mapi g j l.
+Proof.
+  intros A B f g j l. revert j. induction l as [|a l IH]; intros j H; cbn [flat_mapi]; auto.
+  rewrite (H j a), IH; auto; simpl; auto. intros. apply H. simpl. auto.
+Qed.
+
+Lemma in_flat_mapi : forall {A B} (f : nat -> A -> list B) j l b,
+  In b (flat_mapi f j l) -> exists j' a, In a l /\ In b (f j' a).
+Proof.
+  intros A B f j l. revert j. induction l as [|a l IH]; intros j b H; cbn [flat_mapi] in H; [destruct H|].
+  apply in_app_or in H. destruct H as [H|H].
+  - exists j, a. simpl. auto.
+  - destruct (IH _ _ H) as [j' [a' [Ha Hb]]]. exists j', a'. simpl. auto.
+Qed.
+
+Lemma filter_nil : forall {A} (f : A -> bool) l, (forall x, In x l -> f x = false) -> filter f l = [].
+Proof.
+  intros A f l. induction l as [|x l IH]; intros H; simpl; auto.
+  rewrite (H x) by (simpl; auto). apply IH. intros. apply H. simpl. auto.
+Qed.
+
 Lemma rec_add_children_children : forall bond phys b t,
   map sc_child (rec_add_children bond phys b t) = flat_map ids (rchildren t).
 Proof.
   intros bond phys b t. revert b. induction t as [i cs IH] using rtree_ind2. intros b.
-  cbn [rec_add_children rchildren]. generalize 0 as j.
-  induction cs as [|c r IHr]; intros j; [reflexivity|].
-  inversion IH as [|? ? Hc Hr]; subst. cbn [flat_map map sc_child].
-  rewrite map_app, (Hc false), (IHr Hr (S j)). destruct c. reflexivity.
+  rewrite Forall_forall in IH. cbn [rec_add_children rchildren]. rewrite flat_mapi_map.
+  rewrite (flat_mapi_ext_in _ (fun _ c => ids c)).
+  - apply flat_mapi_noindex.
+  - intros j c Hc. cbn [map child_call sc_child]. rewrite (IH c Hc false). destruct c. reflexivity.
 Qed.
 
 (* every node of the state is added by exactly one call, in pre-order *)
@@ -503,61 +564,52 @@ Proof.
   intros. unfold from_ttns_calls. cbn [map sc_child]. rewrite rec_add_children_children. destruct t. reflexivity.
 Qed.
 
-(* legs: the child is attached with its leg 0; below the artificial root the ket goes to leg 0
-   and the bra to leg 1; elsewhere child number j (from 0) goes to leg j + 1 on both sides *)
+(* legs: the child is attached with its leg 0, on both sides to the same leg of the parent's image *)
 Lemma rec_add_children_legs : forall bond phys b t c,
   In c (rec_add_children bond phys b t) ->
   sc_child_leg c = 0 /\ sc_parent_leg c = sc_parent_bra_leg c /\ 1 <= sc_parent_leg c /\
-  exists p, sc_parent c = Some p.
+  exists p, sc_parent c = Some p /\ In p (ids t).
 Proof.
-  intros bond phys b t. revert b. induction t as [i cs IH] using rtree_ind2. intros b c.
-  cbn [rec_add_children]. generalize 0 as j.
-  induction cs as [|x r IHr]; intros j H; [destruct H|].
-  inversion IH as [|? ? Hx Hr]; subst.
-  destruct H as [H|H]; [subst c; cbn; repeat split; eauto; destruct b; lia|].
-  apply in_app_or in H. destruct H as [H|H]; [eapply Hx; eauto | eapply IHr; eauto].
+  intros bond phys b t. revert b. induction t as [i cs IH] using rtree_ind2. intros b c H.
+  rewrite Forall_forall in IH. cbn [rec_add_children] in H.
+  apply in_flat_mapi in H. destruct H as [j [x [Hx [H|H]]]].
+  - subst c. cbn. repeat split; [destruct b; lia|]. exists i. auto.
+  - destruct (IH x Hx false c H) as [H1 [H2 [H3 [p [Hp Hin]]]]]. repeat split; auto.
+    exists p. split; auto. simpl. right. apply in_flat_map. exists x. auto.
 Qed.
 
+(* child number j (from 0) of node i goes to leg j + 1 of the images of i: the calls whose
+   parent is i, in order, are exactly (child, position + 1) *)
 Lemma rec_add_children_direct : forall bond phys b i cs,
-  let direct := filter (fun c => match sc_parent c with Some p => Nat.eqb p i | None => false end) in
   ~ In i (flat_map ids cs) ->
-  map (fun c => (sc_child c, sc_parent_leg c)) (direct (rec_add_children bond phys b (RNode i cs))) =
+  map (fun c => (sc_child c, sc_parent_leg c))
+      (filter (fun c => match sc_parent c with Some p => Nat.eqb p i | None => false end)
+              (rec_add_children bond phys b (RNode i cs))) =
   combine (map rid cs) (seq 1 (List.length cs)).
 Proof.
-  intros bond phys b i cs direct Hni. cbn [rec_add_children].
-  assert (G : forall j l, (forall c, In c l -> ~ In i (ids c)) ->
+  intros bond phys b i cs Hni. cbn [rec_add_children].
+  assert (G : forall l j, (forall c, In c l -> ~ In i (ids c)) ->
     map (fun c => (sc_child c, sc_parent_leg c))
-      (direct ((fix go (j : nat) (l : list rtree) : list sym_call :=
-         match l with
-         | [] => []
-         | c :: r =>
-             {| sc_child := rid c; sc_shape := ttns_shape bond phys false c; sc_child_leg := 0;
-                sc_parent := Some i;
-                sc_parent_leg := (if b then j else j + 1) + (if b then 1 else 0);
-                sc_parent_bra_leg := (if b then j else j + 1) + (if b then 1 else 0) |}
-             :: rec_add_children bond phys false c ++ go (S j) r
-         end) j l)) = combine (map rid l) (seq (S j) (List.length l))).
-  { intros j l. revert j. induction l as [|c r IHl]; intros j Hl; [reflexivity|].
-    unfold direct. cbn [filter sc_parent]. rewrite Nat.eqb_refl. cbn [map sc_child sc_parent_leg length seq combine].
-    f_equal; [f_equal; destruct b; lia|].
-    rewrite filter_app.
-    assert (E : filter (fun c0 => match sc_parent c0 with Some p => Nat.eqb p i | None => false end)
-                  (rec_add_children bond phys false c) = []).
-    { assert (Hc : ~ In i (ids c)) by (apply Hl; left; reflexivity).
-      clear -Hc. revert Hc. generalize false as b'. induction c as [i' cs' IH'] using rtree_ind2. intros b' Hc.
-      cbn [rec_add_children]. generalize 0 as j.
-      assert (Hi : i' <> i) by (intro; subst; apply Hc; left; reflexivity).
-      assert (Hcs : forall x, In x cs' -> ~ In i (ids x)).
-      { intros x Hx Hin. apply Hc. right. apply in_flat_map. exists x. auto. }
-      clear Hc. induction cs' as [|x r IHr]; intros j; [reflexivity|].
-      inversion IH' as [|? ? Hx Hr]; subst. cbn [filter sc_parent].
-      replace (Nat.eqb i' i) with false by (symmetry; apply Nat.eqb_neq; exact Hi).
-      rewrite filter_app, (Hx false), (IHr Hr); auto.
-      - intros y Hy. apply Hcs. right. exact Hy.
-      - apply Hcs. left. reflexivity. }
-    rewrite E. cbn [app]. apply (IHl (S j)). intros x Hx. apply Hl. right. exact Hx. }
+      (filter (fun c => match sc_parent c with Some p => Nat.eqb p i | None => false end)
+         (flat_mapi (fun j c => child_call bond phys b i j c :: rec_add_children bond phys false c) j l)) =
+    combine (map rid l) (seq (S j) (List.length l))).
+  { induction l as [|c r IHl]; intros j Hl; [reflexivity|].
+    cbn [flat_mapi app filter child_call sc_parent]. rewrite Nat.eqb_refl, filter_app.
+    rewrite (filter_nil _ (rec_add_children bond phys false c)).
+    - cbn [app map sc_child sc_parent_leg List.length seq combine]. f_equal; [f_equal; destruct b; simpl; lia|].
+      apply IHl. intros x Hx. apply Hl. simpl. auto.
+    - intros x Hx. destruct (rec_add_children_legs _ _ _ _ _ Hx) as [_ [_ [_ [p [Hp Hin]]]]].
+      rewrite Hp. apply Nat.eqb_neq. intros ->. apply (Hl c); simpl; auto. }
   apply G. intros c Hc Hin. apply Hni. apply in_flat_map. exists c. auto.
 Qed.
+
+(* the call that attaches the state's root: leg 0 of the padded tensor, ket to leg 0 and bra
+   to leg 1 of the artificial root *)
+Lemma root_call : forall bond phys k t,
+  hd_error (from_ttns_calls bond phys k t) =
+  Some {| sc_child := rid t; sc_shape := padded_lead k :: ttns_shape bond phys true t; sc_child_leg := 0;
+          sc_parent := None; sc_parent_leg := 0; sc_parent_bra_leg := 1 |}.
+Proof. reflexivity. Qed.
 
 (* ---- padded legs and the trivial root ---------------------------------------------------------- *)
 Lemma padded_lead_eq : forall k, 1 <= k -> padded_lead k = k.
@@ -578,16 +630,23 @@ Proof.
   rewrite (H x), IH; auto; simpl; auto. intros y Hy. apply H. simpl. auto.
 Qed.
 
+Lemma list_sum_only_zero : forall (f : nat -> nat) k, (forall b, 1 <= b -> f b = 0) ->
+  list_sum (map f (seq 0 (S k))) = f 0.
+Proof.
+  intros f k H. cbn [seq map].
+  replace (list_sum (f 0 :: map f (seq 1 k))) with (f 0 + list_sum (map f (seq 1 k))) by reflexivity.
+  rewrite list_sum_zero; [lia|].
+  intros x Hx. apply in_seq in Hx. apply H. lia.
+Qed.
+
 (* whatever the bond dimension of the artificial root, it contributes the factor 1 *)
 Theorem root_weight_one : forall k, 1 <= k -> root_weight k = 1.
 Proof.
   intros k Hk. unfold root_weight. destruct k as [|k]; [lia|].
-  cbn [seq map list_sum]. rewrite <- !seq_shift, !map_map.
-  rewrite (list_sum_zero _ (seq 0 k)).
-  - cbn [list_sum map]. rewrite (list_sum_zero _ (seq 0 k)); [reflexivity|].
-    intros b _. rewrite !pad_pattern_nth. reflexivity.
-  - intros a _. cbn [list_sum map]. rewrite !pad_pattern_nth. cbn [Nat.eqb b2n].
-    rewrite (list_sum_zero _ (seq 0 k)); [lia|]. intros b _. lia.
+  rewrite list_sum_only_zero.
+  - rewrite list_sum_only_zero; [reflexivity|].
+    intros b Hb. rewrite !pad_pattern_nth. destruct b; [lia|]. cbn. lia.
+  - intros a Ha. apply list_sum_zero. intros b _. rewrite !pad_pattern_nth. destruct a; [lia|]. cbn. lia.
 Qed.
 
 Lemma eye_rows_spec : forall k a b, a < k -> b < k -> nth b (nth a (eye_rows k) []) 0 = if Nat.eqb a b then 1 else 0.
@@ -597,4 +656,48 @@ Proof.
   rewrite (map_nth (fun a => map (eye_entry a) (seq 0 k)) (seq 0 k) 0 a), seq_nth by exact Ha.
   rewrite (nth_indep _ 0 (eye_entry (0 + a) 0)) by (rewrite map_length, seq_length; exact Hb).
   rewrite (map_nth (eye_entry (0 + a)) (seq 0 k) 0 b), seq_nth by exact Hb. reflexivity.
+Qed.
+
+(* ================================================================================== *)
+(* D. soundness of the per-instance checker                                           *)
+(* ================================================================================== *)
+Lemma list_eqb_eq : forall a b, Store.list_eqb a b = true -> a = b.
+Proof.
+  unfold Store.list_eqb. induction a as [|x a IH]; intros [|y b] H; simpl in H; try discriminate; auto.
+  apply andb_true_iff in H. destruct H as [Hl H]. simpl in H. apply andb_true_iff in H. destruct H as [Hx H].
+  apply Nat.eqb_eq in Hx. subst y. f_equal. apply IH. apply andb_true_iff. split; assumption.
+Qed.
+
+Lemma opt_nat_eqb_eq : forall a b, opt_nat_eqb a b = true -> a = b.
+Proof. intros [x|] [y|] H; simpl in H; try discriminate; auto. apply Nat.eqb_eq in H. congruence. Qed.
+
+Lemma rec5_eqb_eq : forall a b, rec5_eqb a b = true -> a = b.
+Proof.
+  intros [[[[i1 p1] c1] q1] s1] [[[[i2 p2] c2] q2] s2] H. unfold rec5_eqb in H.
+  repeat (apply andb_true_iff in H; destruct H as [H ?]).
+  apply Nat.eqb_eq in H. apply opt_nat_eqb_eq in H3.
+  repeat match goal with X : Store.list_eqb _ _ = true |- _ => apply list_eqb_eq in X end.
+  congruence.
+Qed.
+
+Lemma all2_eq : forall {A} (f : A -> A -> bool), (forall a b, f a b = true -> a = b) ->
+  forall l1 l2, all2 f l1 l2 = true -> l1 = l2.
+Proof.
+  intros A f Hf. induction l1 as [|a l1 IH]; intros [|b l2] H; simpl in H; try discriminate; auto.
+  apply andb_true_iff in H. destruct H as [H1 H2]. f_equal; auto.
+Qed.
+
+Theorem store_check_sound : forall bond phys k t, store_check bond phys k t = true ->
+  Forall (fun b => b = true) (snd (from_ttns_store bond phys k t)) /\
+  store_nodes (fst (from_ttns_store bond phys k t)) = doubled_coded bond phys k t /\
+  Store.root (fst (from_ttns_store bond phys k t)) = Some (code DRoot) /\
+  map fst (Store.tensors (fst (from_ttns_store bond phys k t))) = map fst (Store.nodes (fst (from_ttns_store bond phys k t))).
+Proof.
+  intros bond phys k t H. unfold store_check in H.
+  repeat (apply andb_true_iff in H; destruct H as [H ?]).
+  repeat split.
+  - apply Forall_forall. intros b Hb. rewrite forallb_forall in H. apply H. exact Hb.
+  - apply (all2_eq rec5_eqb rec5_eqb_eq). assumption.
+  - apply opt_nat_eqb_eq. assumption.
+  - apply list_eqb_eq. assumption.
 Qed.
